@@ -101,6 +101,22 @@ type HookState struct {
 	Topic string
 	mu    sync.Mutex
 	hook  StateHook
+	fault StateFault
+}
+
+// StateFault decides whether a call of the state store fails (an I/O error of the disk): a non-nil error is returned to
+// the caller instead of performing the call.
+type StateFault func(op, key string) error
+
+func (h *HookState) SetFault(f StateFault) { h.mu.Lock(); h.fault = f; h.mu.Unlock() }
+func (h *HookState) failing(op, key string) error {
+	h.mu.Lock()
+	f := h.fault
+	h.mu.Unlock()
+	if f == nil {
+		return nil
+	}
+	return f(op, key)
 }
 
 var _ state.State = (*HookState)(nil)
@@ -116,12 +132,18 @@ func (h *HookState) call(op, key, phase string) {
 }
 func (h *HookState) Get(key string) ([]byte, error) {
 	h.call("get", key, "before")
+	if ferr := h.failing("get", key); ferr != nil {
+		return nil, ferr
+	}
 	v, err := h.Inner.Get(key)
 	h.call("get", key, "after")
 	return v, err
 }
 func (h *HookState) Set(key string, value []byte) error {
 	h.call("set", key, "before")
+	if ferr := h.failing("set", key); ferr != nil {
+		return ferr
+	}
 	err := h.Inner.Set(key, value)
 	h.call("set", key, "after")
 	return err
@@ -152,6 +174,9 @@ func (h *HookState) LoadOffset() (uint64, error) {
 }
 func (h *HookState) GetOrError(key string) ([]byte, error) {
 	h.call("getorerror", key, "before")
+	if ferr := h.failing("get", key); ferr != nil {
+		return nil, ferr
+	}
 	v, err := h.Inner.GetOrError(key)
 	h.call("getorerror", key, "after")
 	return v, err
